@@ -293,3 +293,89 @@ package geom
 //@   ensures [nil_iff_no_area] (result == nil) <==> !boxesShareArea(*b, *p.(*Bounds))
 //@   ensures [common_rect] result != nil ==> typeof(result) == *Bounds && fresh(result.(*Bounds)) && *result.(*Bounds) == Bounds(Point(goMax(b.Min.X, p.(*Bounds).Min.X), goMax(b.Min.Y, p.(*Bounds).Min.Y)), Point(goMin(b.Max.X, p.(*Bounds).Max.X), goMin(b.Max.Y, p.(*Bounds).Max.Y)))
 //@   modifies nothing
+
+//@ -- ------------------------------------------------------------ C15: Similar
+//@ pred close(a float64, b float64, e float64) = abs(a - b) < e
+//@ pred ptClose(p Point, q Point, e float64) = close(p.X, q.X, e) && close(p.Y, q.Y, e)
+//@ pred ptsClose(a []Point, b []Point, e float64) = len(a) == len(b) && (forall k int :: 0 <= k && k < len(a) ==> ptClose(a[k], b[k], e))
+//@ pred ptssClose(a [][]Point, b [][]Point, e float64) = len(a) == len(b) && (forall k int :: 0 <= k && k < len(a) ==> ptsClose(a[k], b[k], e))
+
+//@ func similar
+//@   prop C15
+//@   mode real
+//@   ensures [def] result <==> close(a, b, e)
+
+//@ func pointSimilar
+//@   prop C15
+//@   mode real
+//@   ensures [def] result <==> ptClose(p1, p2, e)
+//@   ensures [sym] result <==> ptClose(p2, p1, e)
+
+//@ func pointsSimilar
+//@   prop C15
+//@   mode real
+//@   ensures [def] result <==> ptsClose(p1s, p2s, e)
+//@   ensures [len] result ==> len(p1s) == len(p2s)
+//@   modifies nothing
+//@   loop 1 `for i, n := 0, len(p1s); i < n; i++`
+//@     invariant [prefix] 0 <= i && i <= n && n == len(p1s) && len(p1s) == len(p2s) && (forall k int :: 0 <= k && k < i ==> ptClose(p1s[k], p2s[k], e))
+//@     decreases n - i
+
+//@ func pointssSimilar
+//@   prop C15
+//@   mode real
+//@   ensures [def] result <==> ptssClose(p1ss, p2ss, e)
+//@   modifies nothing
+//@   loop 1 `for i, n := 0, len(p1ss); i < n; i++`
+//@     invariant [prefix] 0 <= i && i <= n && n == len(p1ss) && len(p1ss) == len(p2ss) && (forall k int :: 0 <= k && k < i ==> ptsClose(p1ss[k], p2ss[k], e))
+//@     decreases n - i
+
+//@ func (p Point) Similar
+//@   prop C15
+//@   mode real
+//@   ensures [def] result <==> (typeof(g) == Point && ptClose(p, g.(Point), tolerance))
+//@   modifies nothing
+
+//@ func (mp MultiPoint) Similar
+//@   prop C15
+//@   mode real
+//@   ensures [def] result <==> (typeof(g) == MultiPoint && ptsClose(mp, g.(MultiPoint), tolerance))
+//@   modifies nothing
+
+//@ func (l LineString) Similar
+//@   prop C15
+//@   mode real
+//@   ensures [def] result <==> (typeof(g) == LineString && ptsClose(l, g.(LineString), tolerance))
+//@   modifies nothing
+
+//@ func (b *Bounds) Similar
+//@   prop C15
+//@   mode real
+//@   requires [nonnil] b != nil && (typeof(g) == *Bounds ==> g.(*Bounds) != nil)
+//@   ensures [def] result <==> (typeof(g) == *Bounds && ptClose(b.Min, g.(*Bounds).Min, tolerance) && ptClose(b.Max, g.(*Bounds).Max, tolerance))
+//@   modifies nothing
+
+//@ func nextPt
+//@   prop C15
+//@   ensures [range] l >= 1 && 0 <= i && i < l ==> 0 <= result && result < l
+
+//@ func minPt
+//@   prop C15
+//@   mode real
+//@   ensures [range] 0 <= result && (len(c) >= 1 ==> result < len(c))
+//@   ensures [least] forall k int :: 0 <= k && k < len(c) ==> !(c[k].X < c[result].X || c[k].X == c[result].X && c[k].Y < c[result].Y)
+//@   ensures [first] forall k int :: 0 <= k && k < result ==> (c[result].X < c[k].X || c[result].X == c[k].X && c[result].Y < c[k].Y)
+//@   modifies nothing
+//@   loop 1 `for j, p := range c`
+//@     invariant [scan] 0 <= #1 && #1 <= len(c) && 0 <= min && (min == 0 || min < #1)
+//@     invariant [least] forall k int :: 0 <= k && k < #1 ==> !(c[k].X < c[min].X || c[k].X == c[min].X && c[k].Y < c[min].Y)
+//@     invariant [first] forall k int :: 0 <= k && k < min ==> (c[min].X < c[k].X || c[min].X == c[k].X && c[min].Y < c[k].Y)
+
+//@ func ringSimilar
+//@   prop C15
+//@   mode real
+//@   ensures [len] result ==> len(a) == len(b)
+//@   modifies nothing
+//@   loop 1 `for i := 0; i < len(a); i++`
+//@     invariant [idx] 0 <= i && i <= len(a) && len(a) == len(b) && 0 <= ia && 0 <= ib && (len(a) >= 1 ==> ia < len(a) && ib < len(b))
+//@     decreases len(a) - i
